@@ -252,6 +252,7 @@ fn put_nonleaf(v: &mut Vec<u8>, big: bool, c1: u32, s: u32, c2: u32, e: u32, chi
 // @kind core
 // @timeout 2400
 // @mem 24
+// @rss 10
 // @sub src/bbi/bbiread.rs ::: use bytes::{Buf, BytesMut}; ::: use crate::verif_support::bbuf::BytesMut;
 // @functions bbiread::{search_cir_tree_inner, CirTreeBlockSearchIter::next, read_node, cir_tree_leaf_items, cir_tree_non_leaf_items, nodes_overlapping, overlaps} over an in-memory file (ScriptedFile: byte-loop Read + Seek; its blocks_for_cir_tree_node is the blanket impl's body with the requested node offset asserted against the pre-order visit script, see the type's comment); bytes::BytesMut (node header) replaced by the model verif_support::bbuf
 // @bounds an independently encoded 2-level index: root with 2 children, leaves with 2 and 1 blocks, nodes placed out of order in the file (second leaf, then root, then first leaf; root NOT first), little-endian. The recorded child spans and the query are CONCRETE (which children are visited is then decided during symbolic execution - with a symbolic descent the node offset, hence every count and size read from the file, becomes symbolic: 4 M steps, out of memory); the three block spans are symbolic inside their child's span. This instance: query chr0:[10,20], only the first leaf overlaps
@@ -275,6 +276,7 @@ fn c05_search_2level_first_leaf() {
 // @kind core
 // @timeout 2400
 // @mem 24
+// @rss 10
 // @sub src/bbi/bbiread.rs ::: use bytes::{Buf, BytesMut}; ::: use crate::verif_support::bbuf::BytesMut;
 // @functions as c05_search_2level_first_leaf
 // @bounds as c05_search_2level_first_leaf; this instance: query chr1:[10,20], only the second leaf (placed FIRST in the file) overlaps
@@ -293,10 +295,11 @@ fn c05_search_2level_second_leaf() {
 // @harness c05_search_2level_both_leaves
 // @fs 16384
 // @props C05 C04
-// @tier quick
+// @tier thorough
 // @kind core
 // @timeout 2400
 // @mem 24
+// @rss 10
 // @sub src/bbi/bbiread.rs ::: use bytes::{Buf, BytesMut}; ::: use crate::verif_support::bbuf::BytesMut;
 // @functions as c05_search_2level_first_leaf
 // @bounds as c05_search_2level_first_leaf; this instance: the first child spans chr0:0 .. chr1:15, the second chr1:12 .. chr1:50, query chr1:[10,20]: both leaves are visited
@@ -315,10 +318,11 @@ fn c05_search_2level_both_leaves() {
 // @harness c05_search_be_2level_both_leaves
 // @fs 16384
 // @props C05 C10
-// @tier quick
+// @tier thorough
 // @kind stretch
 // @timeout 2400
 // @mem 24
+// @rss 10
 // @sub src/bbi/bbiread.rs ::: use bytes::{Buf, BytesMut}; ::: use crate::verif_support::bbuf::BytesMut;
 // @functions as c05_search_2level_both_leaves, big-endian file
 // @bounds as c05_search_2level_both_leaves
